@@ -319,10 +319,26 @@ def check_establish(tree):
         raise Untranslatable(f'{PEER}: ReceiveTimer creation is not followed by _send_ka / _read_ka')
     rk = find_function(tree, ['Peer', '_read_ka'])
     body = [s for s in rk.body if not isinstance(s, ast.Assert) and not (isinstance(s, ast.Expr) and isinstance(s.value, ast.Constant))]
-    if len(body) != 2 or not stmt_is(body[0], 'message = await self.proto.read_keepalive()') or not stmt_is(
+    old_shape = len(body) == 2 and stmt_is(body[0], 'message = await self.proto.read_keepalive()') and stmt_is(
         body[1], 'self.recv_timer.check_ka_timer(message)'
-    ):
-        raise Untranslatable(f'{PEER}: _read_ka is not read_keepalive + recv_timer.check_ka_timer(message)')
+    )
+    # with the OpenConfirm hold timer: holdtime = int(self.proto.negotiated.holdtime);
+    # try: message = await asyncio.wait_for(self.proto.read_keepalive(), timeout=holdtime or None)
+    # except asyncio.TimeoutError: raise Notify(4, 0, ..) ; self.recv_timer.check_ka_timer(message)
+    new_shape = (
+        len(body) == 3
+        and stmt_is(body[0], 'holdtime = int(self.proto.negotiated.holdtime)')
+        and isinstance(body[1], ast.Try)
+        and len(body[1].body) == 1
+        and stmt_is(body[1].body[0], 'message = await asyncio.wait_for(self.proto.read_keepalive(), timeout=holdtime or None)')
+        and len(body[1].handlers) == 1
+        and dotted(body[1].handlers[0].type) == 'asyncio.TimeoutError'
+        and find_raise_notify(body[1].handlers[0].body, f'{PEER}: _read_ka timeout') == (4, 0)
+        and not body[1].orelse and not body[1].finalbody
+        and stmt_is(body[2], 'self.recv_timer.check_ka_timer(message)')
+    )
+    if not (old_shape or new_shape):
+        raise Untranslatable(f'{PEER}: _read_ka is not read_keepalive [under the hold timer, 4/0] + recv_timer.check_ka_timer(message)')
     return code, sub
 
 
